@@ -1,9 +1,12 @@
 SPECIFICATION FSpec
 CONSTANTS MaxN = 4 Bound = 2 MaxStep = 2
   CapNames = {"len", "index", "neg", "slice", "seq", "rev"}
+  HintNames = {"exact", "small", "large", "zero", "notimpl", "typeerr"}
+  MaxGrowAt = 2 MaxGrowBy = 2 UseHint = FALSE
 INVARIANT FlowIndependent
 INVARIANT PrefixOfSlice
 INVARIANT OneCursor
 INVARIANT HeldBound
+INVARIANT GrowthSeen
 INVARIANT FEmitted
 CHECK_DEADLOCK FALSE
